@@ -194,6 +194,18 @@ macro "ev" : tactic =>
              simp (disch := omega) only [dst, org_setNext, nxt_setNext, prv_setNext, fc_setNext, rv_setNext, nE_setNext, nF_setNext, nV_setNext, fe_setNext, org_setPrev, nxt_setPrev, prv_setPrev, fc_setPrev, rv_setPrev, nE_setPrev, nF_setPrev, nV_setPrev, fe_setPrev, org_setFace, nxt_setFace, prv_setFace, fc_setFace, rv_setFace, nE_setFace, nF_setFace, nV_setFace, fe_setFace, org_setOrigin, nxt_setOrigin, prv_setOrigin, fc_setOrigin, rv_setOrigin, nE_setOrigin, nF_setOrigin, nV_setOrigin, fe_setOrigin, org_setHE, nxt_setHE, prv_setHE, fc_setHE, rv_setHE, nE_setHE, nF_setHE, nV_setHE, fe_setHE, org_setVOut, nxt_setVOut, prv_setVOut, fc_setVOut, rv_setVOut, org_setFAdj, nxt_setFAdj, prv_setFAdj, fc_setFAdj, rv_setFAdj, org_pushFace, nxt_pushFace, prv_pushFace, fc_pushFace, rv_pushFace, org_pushVertex, nxt_pushVertex, prv_pushVertex, fc_pushVertex, rv_pushVertex, org_pushEdge, nxt_pushEdge, prv_pushEdge, fc_pushEdge, rv_pushEdge, nE_setVOut, nF_setVOut, nV_setVOut, fe_setVOut, nE_setFAdj, nF_setFAdj, nV_setFAdj, fe_setFAdj, nE_pushEdge, nF_pushEdge, nV_pushEdge, fe_pushEdge, nE_pushFace, nF_pushFace, nV_pushFace, fe_pushFace, nE_pushVertex, nF_pushVertex, nV_pushVertex, fe_pushVertex, if_pos, if_neg, true_and, and_true, ite_true, ite_false]))
 
 
+/-- the same evaluation without a decision procedure: the index comparisons are rewritten with the
+given facts (bounds `e < s.nE`, disequalities in both orientations, `∀ k, s.nE + k ≠ e`) and
+simple arithmetic on `s.nE + k` -/
+syntax "evw" "[" Lean.Parser.Tactic.simpLemma,* "]" : tactic
+macro_rules
+  | `(tactic| evw [$ls,*]) =>
+    `(tactic| (simp only [run, List.foldl_cons, List.foldl_nil, Instr.apply, mkHE];
+               simp only [dst, org_setNext, nxt_setNext, prv_setNext, fc_setNext, rv_setNext, nE_setNext, nF_setNext, nV_setNext, fe_setNext, org_setPrev, nxt_setPrev, prv_setPrev, fc_setPrev, rv_setPrev, nE_setPrev, nF_setPrev, nV_setPrev, fe_setPrev, org_setFace, nxt_setFace, prv_setFace, fc_setFace, rv_setFace, nE_setFace, nF_setFace, nV_setFace, fe_setFace, org_setOrigin, nxt_setOrigin, prv_setOrigin, fc_setOrigin, rv_setOrigin, nE_setOrigin, nF_setOrigin, nV_setOrigin, fe_setOrigin, org_setHE, nxt_setHE, prv_setHE, fc_setHE, rv_setHE, nE_setHE, nF_setHE, nV_setHE, fe_setHE, org_setVOut, nxt_setVOut, prv_setVOut, fc_setVOut, rv_setVOut, org_setFAdj, nxt_setFAdj, prv_setFAdj, fc_setFAdj, rv_setFAdj, org_pushFace, nxt_pushFace, prv_pushFace, fc_pushFace, rv_pushFace, org_pushVertex, nxt_pushVertex, prv_pushVertex, fc_pushVertex, rv_pushVertex, org_pushEdge, nxt_pushEdge, prv_pushEdge, fc_pushEdge, rv_pushEdge, nE_setVOut, nF_setVOut, nV_setVOut, fe_setVOut, nE_setFAdj, nF_setFAdj, nV_setFAdj, fe_setFAdj, nE_pushEdge, nF_pushEdge, nV_pushEdge, fe_pushEdge, nE_pushFace, nF_pushFace, nV_pushFace, fe_pushFace, nE_pushVertex, nF_pushVertex, nV_pushVertex, fe_pushVertex, true_and, and_true, false_and, and_false, ite_true, ite_false,
+                 if_true, if_false, Nat.add_left_cancel_iff, Nat.left_eq_add, Nat.add_eq_left,
+                 Nat.add_eq_zero_iff, Nat.lt_add_right_iff_pos, Nat.add_lt_add_iff_left, Nat.add_assoc,
+                 Nat.reduceAdd, Nat.reduceEqDiff, Nat.reduceLT, $ls,*]))
+
 /-! ### the link invariant -/
 
 /-- per-edge link conditions: the conjuncts of `LinksOK` (all but "the two sides of an edge are
@@ -367,6 +379,83 @@ theorem tri_cross {e : Nat} (h : e < s.nE) (h0 : s.fc e ≠ 0) :
     have a2 := E1.2.2.2.2.2.2.2.2.1
     rw [t3] at a2
     rw [a1, a2]
+
+/-- The same reduction with one set per field: `TN`/`TP`/`TF`/`O` = half-edges whose
+next / prev / face / origin may have changed, all inside `T`; an edge whose `prev` (face, origin)
+changed has its old predecessor in `T`, one whose `next` changed has its old successor in `T` —
+the operation need not touch whole face cycles (the outer face in particular). -/
+theorem of_local2 {t : St} (T TN TP TF O FT : List Nat)
+    (hE : s.nE ≤ t.nE) (heven : t.nE % 2 = 0) (hF : s.nF ≤ t.nF) (hV : s.nV ≤ t.nV)
+    (dsz : t.data.size = t.nV) (vsz : t.vOut.size = t.nV)
+    (hTN : ∀ x ∈ TN, x ∈ T ∧ s.nxt x ∈ T ∧ (s.fc x ≠ 0 → s.prv x ∈ T))
+    (hTP : ∀ x ∈ TP, x ∈ T ∧ s.prv x ∈ T)
+    (hTF : ∀ x ∈ TF, x ∈ T ∧ s.prv x ∈ T ∧ (s.fc x = 0 ∨ s.fc x ∈ FT))
+    (hO : ∀ x ∈ O, x ∈ T ∧ s.prv x ∈ T ∧ s.rv x ∈ T)
+    (nframe : ∀ i, i < s.nE → i ∉ TN → t.nxt i = s.nxt i)
+    (pframe : ∀ i, i < s.nE → i ∉ TP → t.prv i = s.prv i)
+    (fframe : ∀ i, i < s.nE → i ∉ TF → t.fc i = s.fc i)
+    (rframe : ∀ i, i < s.nE → t.rv i = s.rv i)
+    (oframe : ∀ i, i < s.nE → i ∉ O → t.org i = s.org i)
+    (check : ∀ e, e < t.nE → (e ∈ T ∨ s.nE ≤ e) → EdgeOK t e)
+    (aframe : ∀ f, 0 < f → f < s.nF → f ∉ FT → t.fe f = s.fe f)
+    (acheck : ∀ f, 0 < f → f < t.nF → (f ∈ FT ∨ s.nF ≤ f) → t.fe f < t.nE ∧ t.fc (t.fe f) = f) :
+    LInv t := by
+  refine ⟨heven, by have := hs.faces; omega, dsz, vsz, ?_, ?_⟩
+  · intro e he
+    by_cases hc : e ∈ T ∨ s.nE ≤ e
+    · exact check e he hc
+    · have hnT : e ∉ T := fun h => hc (Or.inl h)
+      have hlt : e < s.nE := by
+        by_cases h : s.nE ≤ e
+        · exact absurd (Or.inr h) hc
+        · omega
+      obtain ⟨o1, o2, o3, o4, o5, o6, o7, o8, o9, o10, o11⟩ := hs.edge e hlt
+      -- the edge itself
+      have e1 : t.nxt e = s.nxt e := nframe e hlt fun h => hnT (hTN _ h).1
+      have e2 : t.prv e = s.prv e := pframe e hlt fun h => hnT (hTP _ h).1
+      have e3 : t.fc e = s.fc e := fframe e hlt fun h => hnT (hTF _ h).1
+      have e4 : t.org e = s.org e := oframe e hlt fun h => hnT (hO _ h).1
+      have e5 : t.rv e = s.rv e := rframe e hlt
+      -- its successor
+      have n1 : t.prv (s.nxt e) = s.prv (s.nxt e) := pframe _ o2 fun h => hnT (by
+        have := (hTP _ h).2; rwa [o6] at this)
+      have n2 : t.fc (s.nxt e) = s.fc (s.nxt e) := fframe _ o2 fun h => hnT (by
+        have := (hTF _ h).2.1; rwa [o6] at this)
+      have n3 : t.org (s.nxt e) = s.org (s.nxt e) := oframe _ o2 fun h => hnT (by
+        have := (hO _ h).2.1; rwa [o6] at this)
+      -- its predecessor
+      have p1 : t.nxt (s.prv e) = s.nxt (s.prv e) := nframe _ o3 fun h => hnT (by
+        have := (hTN _ h).2.1; rwa [o7] at this)
+      -- its twin
+      have r1 : t.org (s.rv e) = s.org (s.rv e) := oframe _ (hs.rv_lt hlt) fun h => hnT (by
+        have := (hO _ h).2.2; rwa [hs.rv_rv hlt] at this)
+      unfold EdgeOK dst at *
+      refine ⟨by omega, by omega, by omega, by omega, by rw [e5]; exact o5, by rw [e1, n1]; exact o6,
+        by rw [e2, p1]; exact o7, by rw [e1, n2, e3]; exact o8, by rw [e1, n3, e5, r1]; exact o9,
+        by rw [e4, e5, r1]; exact o10, ?_⟩
+      intro h0
+      have h0' : s.fc e ≠ 0 := by rw [← e3]; exact h0
+      obtain ⟨t1, t2, t3, t4, t5, t6, t7, t8, _, _, _⟩ := hs.tri hlt h0'
+      have q1 : t.nxt (s.nxt e) = s.nxt (s.nxt e) := nframe _ o2 fun h => hnT (by
+        have := (hTN _ h).2.2 (by rw [t7]; exact h0'); rwa [o6] at this)
+      have q2 : t.nxt (s.prv e) = e := by rw [p1]; exact o7
+      rw [e1, q1, t3, q2]
+  · intro f h0 hf
+    by_cases hc : f ∈ FT ∨ s.nF ≤ f
+    · exact acheck f h0 hf hc
+    · have hnF : f ∉ FT := fun h => hc (Or.inl h)
+      have hlt : f < s.nF := by
+        by_cases h : s.nF ≤ f
+        · exact absurd (Or.inr h) hc
+        · omega
+      obtain ⟨a1, a2⟩ := hs.anchor f h0 hlt
+      have haT : s.fe f ∉ TF := by
+        intro h
+        rcases (hTF _ h).2.2 with h1 | h1
+        · omega
+        · rw [a2] at h1; exact hnF h1
+      rw [aframe f h0 hlt hnF]
+      exact ⟨by omega, by rw [fframe _ a1 haT]; exact a2⟩
 end LInv
 
 end St
